@@ -392,14 +392,24 @@ def check_dispatcher(ctx, b):
     from vlib import sym as S
     s, _ = ctx.sym(b)
     n = 0
-    for d in b.defs().get(0, []):
-        blk, i, kind, node = d
-        if b.is_cleanup(blk):
+    # the dispatcher's value as a case table: combinators, `?`, explicit matches and private helpers
+    # are looked through, so each row is Ok(..), Err(<error value>) or a result handed on as it is
+    alg = resalg.Algebra(b.crate)
+    seen = set()
+    for conds, v in alg.body_cases(b):
+        v = S.strip_transparent(v)
+        key = s.show(v)
+        if key in seen:
             continue
-        e = S.strip_transparent(s._def_expr(d, 0))
-        ok, why = exit_ok(ctx, b, s, e, 0)
+        seen.add(key)
+        if v[0] == "agg" and v[1].endswith("Result::Ok"):
+            ok, why = True, "Ok"
+        elif v[0] == "agg" and v[1].endswith("Result::Err") and v[2]:
+            ok, why = _err_value_ok(s, v[2][0])
+        else:
+            ok, why = exit_ok(ctx, b, s, v, 0)
         n += 1
-        ctx.ob("C03.P.dispatcher-exits", b.key, "return %s" % _short(s.show(e)), ok, why)
+        ctx.ob("C03.P.dispatcher-exits", b.key, "return %s" % _short(key), ok, why)
     if n == 0:
         ctx.ob("C03.P.dispatcher-exits", b.key, "return", False, "no return value found")
 
@@ -437,8 +447,18 @@ def _err_value_ok(s, inner):
         return True, "self-spanned constructor"
     if inner[0] == "call" and inner[1] == E + "with_span":
         return True, "with_span(%s)" % s.show(inner[2][1])
-    if inner[0] == "field" and inner[1][0] == "variant" and inner[1][2] == "Err" and inner[1][1][0] == "call" and _is_dispatch_call(inner[1][1][1]):
-        return True, "the error of a dispatcher called with the same node"
+    if inner[0] == "field" and inner[1][0] == "variant" and inner[1][2] == "Err":
+        src = inner[1][1]
+        if src[0] == "call" and _is_dispatch_call(src[1]):
+            return True, "the error of a dispatcher called with the same node"
+        if src[0] in ("param", "field", "variant", "index"):
+            return True, "the error of a result it was given"
+        if src[0] == "call" and isinstance(src[1], str) and (src[1].startswith("core::iter::") or "Iterator" in src[1]):
+            return True, "the first error of per-element dispatcher results"
+    if inner[0] == "call" and inner[1] == "From::from":
+        return True, "converted foreign (syn) error: keeps syn's span"
+    if inner[0] == "call" and inner[1] in (E + "at", E + "at_path") and inner[2]:
+        return _err_value_ok(s, inner[2][0])
     return False, "Err(%s) built without a span" % s.show(inner)[:120]
 
 
